@@ -23,7 +23,10 @@ def harness_file(rec):
     return rec.get("original_file")
 
 
-def confirm(rec, scratch, verif_root, timeout=3600):
+def confirm(rec, scratch, verif_root, timeout=None):
+    if timeout is None:
+        # stock cargo-kani with playback is slower than our pipeline: allow 4x, within [600 s, 2400 s]
+        timeout = int(min(2400, max(600, 4 * float(rec.get("cbmc_wall_s") or 150))))
     prop = rec["prop"]
     hname = rec["harness"]
     crate = rec["crate"]
@@ -53,7 +56,7 @@ def confirm(rec, scratch, verif_root, timeout=3600):
                "--harness", hname, "--exact"] if False else \
               ["cargo", "kani", "--target-dir", os.path.join(scratch, "replay-target"), "-Z", "stubbing",
                "-Z", "unstable-options", "-Z", "concrete-playback", "--concrete-playback=inplace",
-               "--harness", hname]
+               "--harness", hname, "--no-assertion-reach-checks"]
         if crate == "tantivy":
             cmd.append("--no-default-features")
         import obligations as O
@@ -69,6 +72,14 @@ def confirm(rec, scratch, verif_root, timeout=3600):
         new = open(src).read()
         old = open(backup).read()
         m = re.search(r"fn (kani_concrete_playback_\w+)", new)
+        if rc == -999:
+            # stock run exceeded its budget: keep our own CBMC verdict, say so
+            with open(rpath, "w") as f:
+                f.write("// stock cargo-kani replay exceeded %d s; failing checks of our CBMC run:\n" % timeout)
+                for fl in rec.get("failed", []):
+                    f.write("// %s %s:%s %s\n" % (fl.get("class"), fl.get("file"), fl.get("line"), fl.get("desc")))
+            out.update(confirmed=None, path=rpath, why="stock cargo-kani replay timed out; violation rests on our CBMC run only")
+            return out
         if not official_failed:
             out.update(confirmed=False, why="stock cargo-kani run does not report FAILED for this harness")
             return out
